@@ -655,10 +655,22 @@ impl<W, R, T> CompilationScope<'_, W, R, T> {
                 {
                     return Ok(XStaticExpr::LiteralInt(whole));
                 }
-                if let Ok(float) = to_parse.parse::<f64>() {
-                    return Ok(XStaticExpr::LiteralFloat(float));
+                // only spellings with a fraction or an exponent are floats; an integer spelling that does not
+                // fit is rejected instead of silently becoming a float, and so is a float that is not finite
+                let is_float_spelling = !to_parse.starts_with("0x")
+                    && !to_parse.starts_with("0b")
+                    && to_parse.contains(|c| c == '.' || c == 'e' || c == 'E');
+                if is_float_spelling {
+                    if let Ok(float) = to_parse.parse::<f64>() {
+                        if float.is_finite() {
+                            return Ok(XStaticExpr::LiteralFloat(float));
+                        }
+                    }
                 }
-                panic!("{} is not a number", input.as_str());
+                return Err(CompilationError::InvalidNumberLiteral {
+                    literal: input.as_str().to_string(),
+                }
+                .trace(&input));
             }
             Rule::CNAME => {
                 return Ok(XStaticExpr::Ident(interner.get_or_intern(input.as_str())));
